@@ -42,11 +42,18 @@ def unknown_names(y, sec, none_is_valid=False):
         yield tag, n
 
 
-def mutations(y):
+def mutations(y, pos=0):
     """y: YAML object of a VALID document (string keys).  Yields (rule, mutant);
     every mutant breaks exactly the named documented rule."""
     def m():
         return copy.deepcopy(y)
+
+    def first(seq):
+        """the entry the fault is placed at: the first one for pos == 0, any other for other pos"""
+        return seq[pos % len(seq)]
+
+    def last(seq):
+        return seq[(-1 - pos) % len(seq)]
     for sec in REQ:
         d = m(); del d[sec]; yield f"missing-section:{sec}", d
     d = m(); d["bogus_section"] = 1; yield "unknown-section", d
@@ -56,39 +63,39 @@ def mutations(y):
                       ("step_limit", 2.5), ("step_limit", "10")]:
         d = m(); d[sec] = badv; yield f"mistyped-section:{sec}:{type(badv).__name__}", d
     d = m(); d["subnets"] = []; yield "subnets-empty", d
-    d = m(); d["subnets"][0] = 0; yield "subnets-zero", d
-    d = m(); d["subnets"][-1] = -1; yield "subnets-negative", d
+    d = m(); d["subnets"][pos % len(d["subnets"])] = 0; yield "subnets-zero", d
+    d = m(); d["subnets"][(-1 - pos) % len(d["subnets"])] = -1; yield "subnets-negative", d
     d = m(); d["topology"] = d["topology"][:-1]; yield "topology-missing-row", d
     d = m(); d["topology"].append(list(d["topology"][0])); yield "topology-extra-row", d
-    d = m(); d["topology"][0] = d["topology"][0][:-1]; yield "topology-short-row", d
-    d = m(); d["topology"][-1] = d["topology"][-1] + [0]; yield "topology-long-row", d
-    d = m(); d["topology"][0][0] = 2; yield "topology-entry-2", d
-    d = m(); d["topology"][1][1] = -1; yield "topology-entry-negative", d
-    d = m(); d["topology"][-1][-1] = 0.5; yield "topology-entry-fraction", d
+    d = m(); r_ = pos % len(d["topology"]); d["topology"][r_] = d["topology"][r_][:-1]; yield "topology-short-row", d
+    d = m(); r_ = (-1 - pos) % len(d["topology"]); d["topology"][r_] = d["topology"][r_] + [0]; yield "topology-long-row", d
+    d = m(); r_ = pos % len(d["topology"]); d["topology"][r_][r_] = 2; yield "topology-entry-2", d
+    d = m(); r_ = (1 + pos) % len(d["topology"]); d["topology"][r_][r_] = -1; yield "topology-entry-negative", d
+    d = m(); r_ = (-1 - pos) % len(d["topology"]); d["topology"][r_][(r_ + pos) % len(d["topology"])] = 0.5; yield "topology-entry-fraction", d
     for sec in ("os", "services", "processes"):
         d = m(); d[sec] = []; yield f"{sec}-empty", d
-        d = m(); d[sec] = d[sec] + [d[sec][0]]; yield f"{sec}-duplicate", d
+        d = m(); d[sec] = d[sec] + [first(d[sec])]; yield f"{sec}-duplicate", d
         d = m(); d[sec] = [d[sec][0]] + d[sec]; yield f"{sec}-duplicate-adjacent", d
         d = m(); d[sec] = d[sec] + [d[sec][-1]]; yield f"{sec}-duplicate-last", d
     sh = list(y["sensitive_hosts"])
     nsub = len(y["subnets"])
-    d = m(); v = d["sensitive_hosts"].pop(sh[0]); d["sensitive_hosts"]["(99, 0)"] = v; yield "sensitive-bad-subnet", d
-    d = m(); v = d["sensitive_hosts"].pop(sh[0]); d["sensitive_hosts"]["(1, 99)"] = v; yield "sensitive-bad-host", d
-    d = m(); v = d["sensitive_hosts"].pop(sh[0]); d["sensitive_hosts"]["(0, 0)"] = v; yield "sensitive-internet", d
-    d = m(); v = d["sensitive_hosts"].pop(sh[0]); d["sensitive_hosts"][f"({nsub + 1}, 0)"] = v; yield "sensitive-subnet-off-by-one", d
-    d = m(); v = d["sensitive_hosts"].pop(sh[0]); d["sensitive_hosts"][f"(1, {y['subnets'][0]})"] = v; yield "sensitive-host-off-by-one", d
-    d = m(); v = d["sensitive_hosts"].pop(sh[0]); d["sensitive_hosts"]["(1, -1)"] = v; yield "sensitive-negative-host", d
-    alt = sh[0].replace(", ", ",")
-    if alt != sh[0]:
-        d = m(); d["sensitive_hosts"][alt] = d["sensitive_hosts"][sh[0]]; yield "sensitive-duplicate", d
-    d = m(); d["sensitive_hosts"][sh[0]] = 0; yield "sensitive-value-zero", d
-    d = m(); d["sensitive_hosts"][sh[-1]] = -5; yield "sensitive-value-negative", d
+    d = m(); v = d["sensitive_hosts"].pop(first(sh)); d["sensitive_hosts"]["(99, 0)"] = v; yield "sensitive-bad-subnet", d
+    d = m(); v = d["sensitive_hosts"].pop(first(sh)); d["sensitive_hosts"]["(1, 99)"] = v; yield "sensitive-bad-host", d
+    d = m(); v = d["sensitive_hosts"].pop(first(sh)); d["sensitive_hosts"]["(0, 0)"] = v; yield "sensitive-internet", d
+    d = m(); v = d["sensitive_hosts"].pop(first(sh)); d["sensitive_hosts"][f"({nsub + 1}, 0)"] = v; yield "sensitive-subnet-off-by-one", d
+    d = m(); v = d["sensitive_hosts"].pop(first(sh)); d["sensitive_hosts"][f"(1, {y['subnets'][0]})"] = v; yield "sensitive-host-off-by-one", d
+    d = m(); v = d["sensitive_hosts"].pop(first(sh)); d["sensitive_hosts"]["(1, -1)"] = v; yield "sensitive-negative-host", d
+    alt = first(sh).replace(", ", ",")
+    if alt != first(sh):
+        d = m(); d["sensitive_hosts"][alt] = d["sensitive_hosts"][first(sh)]; yield "sensitive-duplicate", d
+    d = m(); d["sensitive_hosts"][first(sh)] = 0; yield "sensitive-value-zero", d
+    d = m(); d["sensitive_hosts"][last(sh)] = -5; yield "sensitive-value-negative", d
     for sec, fields, tgt in (("exploits", ["service", "os", "prob", "cost", "access"], "service"),
                              ("privilege_escalation", ["process", "os", "prob", "cost", "access"], "process")):
         if not y[sec]:
             continue
         names = list(y[sec])
-        n0, n1 = names[0], names[-1]
+        n0, n1 = first(names), last(names)
         for f in fields:
             d = m(); del d[sec][n0][f]; yield f"{sec}-missing-{f}", d
         for tag, bad in unknown_names(y, tgt + ("s" if tgt == "service" else "es")):
@@ -108,7 +115,7 @@ def mutations(y):
         d = m(); d[sc] = -1; yield f"{sc}-negative", d
         d = m(); d[sc] = -0.5; yield f"{sc}-negative-fraction", d
     hc = list(y["host_configurations"])
-    h0, hl = hc[0], hc[-1]
+    h0, hl = first(hc), last(hc)
     d = m(); del d["host_configurations"][hl]; yield "host-missing", d
     d = m(); d["host_configurations"]["(1, 77)"] = copy.deepcopy(d["host_configurations"][h0]); yield "host-superfluous", d
     d = m(); c = d["host_configurations"].pop(hl); d["host_configurations"]["(1, 77)"] = c; yield "host-wrong-address", d
@@ -133,7 +140,7 @@ def mutations(y):
         if y["host_configurations"][hx]["processes"]:
             d = m(); s = d["host_configurations"][hx]["processes"]; s.append(s[0]); yield "host-duplicate-process", d
             break
-    sv = y["services"][0]
+    sv = first(y["services"])
     d = m(); d["host_configurations"][h0]["firewall"] = [sv]; yield "hostfw-not-a-dict", d
     d = m(); d["host_configurations"][hl]["firewall"] = {"(99, 0)": []}; yield "hostfw-bad-subnet", d
     d = m(); d["host_configurations"][h0]["firewall"] = {"(1, 99)": [sv]}; yield "hostfw-bad-host", d
@@ -170,7 +177,7 @@ def mutations(y):
     d = m(); d["host_configurations"][h0] = [1, 2, 3]; yield "host-configuration-not-a-dict", d
     fw = list(y["firewall"])
     if fw:
-        f0, fl = fw[0], fw[-1]
+        f0, fl = first(fw), last(fw)
         d = m(); del d["firewall"][f0]; yield "firewall-missing-rule", d
         d = m(); del d["firewall"][fl]; yield "firewall-missing-last-rule", d
         d = m(); d["firewall"][f0] = sv; yield "firewall-rule-not-a-list", d
@@ -226,7 +233,7 @@ def rule_section(rule):
     return head
 
 
-def run_base(yobj, tag, rep, pairs=0, record=True):
+def run_base(yobj, tag, rep, pairs=0, record=True, pos=0):
     """returns set of failing buckets"""
     failed = set()
     base_fp = common.stable_hash(yobj)
@@ -238,7 +245,7 @@ def run_base(yobj, tag, rep, pairs=0, record=True):
     if record:
         rep.count("bases")
         rep.count("base:" + tag)
-    muts = list(mutations(yobj))
+    muts = list(mutations(yobj, pos))
     for rule, d in muts:
         if record:
             rep.evaluated()
@@ -282,9 +289,11 @@ def _shard(shard, seed, tier, n_cases):
 
     @hypothesis.seed(seed)
     @settings(max_examples=n_cases, deadline=None, database=None, phases=[Phase.generate], suppress_health_check=list(HealthCheck))
-    @given(doc=docs.documents(extras=False))
-    def t(doc):
-        run_base(docs.to_yaml_obj(doc), "random", rep, pairs=40 if tier == "thorough" else 0)
+    @given(doc=docs.documents(extras=False), pos=st.sampled_from([0, 0, 1, 2, 3, 5, 8, 13]))
+    def t(doc, pos):
+        run_base(docs.to_yaml_obj(doc), "random", rep, pairs=40 if tier == "thorough" else 0, pos=pos)
+        if pos:
+            rep.count("fault-position-other-than-first/last")
     t()
     return rep
 
@@ -295,6 +304,8 @@ def _shipped_shard(shard, seed, tier, names):
     with open(sources.shipped_path(name)) as f:
         y = yaml.safe_load(f)
     run_base(y, "shipped:" + name, rep, pairs=60 if tier == "thorough" else 10)
+    for pos in ((1, 2, 3, 7) if tier == "thorough" else (1 + shard % 3,)):
+        run_base(y, "shipped:" + name, rep, pos=pos)
     return rep
 
 
